@@ -75,6 +75,7 @@ func (c *Ctx) wireBin() (string, error) {
 
 // wirePair holds the two package copies of one case.
 type wirePair struct {
+	migrateDir string // working directory of migrate ("" = the package directory of copy B)
 	c       *Ctx
 	w       *spec.WCase
 	root    string
@@ -129,7 +130,11 @@ func (p *wirePair) runWire() error {
 // runMigrate runs `kessoku migrate` in copy B (default output kessoku.go).
 func (p *wirePair) runMigrate(extra ...string) {
 	args := append([]string{p.c.Snap.CLI, "migrate"}, extra...)
-	p.Mig = pipe.Run(pipe.Cmd{Dir: p.B.AppDir, Env: p.c.goEnv(), Args: args, Timeout: 3 * time.Minute})
+	dir := p.B.AppDir
+	if p.migrateDir != "" {
+		dir = p.migrateDir
+	}
+	p.Mig = pipe.Run(pipe.Cmd{Dir: dir, Env: p.c.goEnv(), Args: args, Timeout: 3 * time.Minute})
 }
 
 // setAsideWire removes the wire files from copy B.
